@@ -12,7 +12,7 @@ use rip_kernel::{Event, EventKind, ProviderEventStatus};
 use rip_log::EventLog;
 use serde_json::{json, Value};
 
-use crate::common::{machinery_failure, Opts, Report, Tier};
+use crate::common::{machinery_failure, Opts, Report};
 
 #[derive(Clone, Debug, PartialEq)]
 struct Obs {
